@@ -123,7 +123,7 @@ func runC15(r *core.Run) {
 		q.SnapshotDir = "snap"
 	}
 	if r.Bool("one-count?") {
-		q.LaunchVmsas = []uint32{1, 2, 8, 224}[r.Intn(4, "vmsas")]
+		q.LaunchVmsas = []uint32{1, 2, 8, 224, 3, 6, 12, 500}[r.Intn(8, "vmsas")] // incl. counts outside the shipped machine-shape list
 	}
 	q.Genoa = r.Chance(30, "genoa?")
 	if img.TDX {
